@@ -26,6 +26,8 @@ type hnode struct {
 	id   string
 	t    *catType
 	tame bool // parameters: only tame values are ever sent to it
+	// image parameters: the last accepted upload was not in Go's default PNG encoding
+	foreign bool
 }
 
 type hist struct {
@@ -53,8 +55,9 @@ type hist struct {
 	// followed by another blob in the saved buffer is corrupted by reload - known
 	// finding - and the re-save of such a graph cannot be compared byte for byte.)
 	fileBlobs bool
-	autosave  string // every-edit | random | never
-	noReplay  bool   // the history is not one runHistory can replay
+	autosave  string          // every-edit | random | never
+	noReplay  bool            // the history is not one runHistory can replay
+	deleted   map[string]bool // ids of deleted nodes
 }
 
 func (h *hist) logf(format string, a ...any) {
@@ -404,6 +407,44 @@ func (h *hist) update(n *hnode) {
 	}
 	h.res.Count("op_update_parameter", 1)
 	h.res.SetAdd("parameter_value_classes", class)
+	if n.t.Out == outImage {
+		n.foreign = foreignEncoding(msg)
+		if n.foreign {
+			h.res.Count("op_update_image_in_a_foreign_encoding", 1)
+			h.res.SetAdd("image_upload_classes_in_a_foreign_encoding", class)
+		}
+	}
+}
+
+// leftovers counts what the graph about to be saved holds besides live nodes.
+func (h *hist) leftovers() {
+	foreign := 0
+	for _, n := range h.nodes {
+		if n.foreign {
+			foreign++
+		}
+	}
+	if foreign > 0 {
+		h.res.Count("saved_graphs_with_an_image_uploaded_in_a_foreign_encoding", 1)
+		h.res.Count("saved_image_parameters_uploaded_in_a_foreign_encoding", int64(foreign))
+	}
+	nm, _ := h.meta["nodes"].(map[string]any)
+	dead, never := 0, 0
+	for id := range nm {
+		switch {
+		case h.byID[id] != nil:
+		case h.deleted[id]:
+			dead++
+		default:
+			never++
+		}
+	}
+	if dead > 0 {
+		h.res.Count("saved_graphs_with_metadata_of_a_deleted_node", 1)
+	}
+	if never > 0 {
+		h.res.Count("saved_graphs_with_metadata_of_an_id_that_never_existed", 1)
+	}
 }
 
 func (h *hist) rename(n *hnode) {
@@ -469,6 +510,9 @@ func (h *hist) metaSet() {
 		id := fmt.Sprintf("Node-%d", r.Intn(len(h.nodes)+3))
 		if r.Intn(2) == 0 && len(h.nodes) > 0 {
 			id = h.nodes[r.Intn(len(h.nodes))].id
+		}
+		if r.Intn(5) == 0 {
+			id = fmt.Sprintf("Node-%d", 500+r.Intn(500)) // an id that no node ever had
 		}
 		path = []string{"nodes", id, "position"}
 		value = map[string]any{"x": tameFloat(r) * 200, "y": tameFloat(r) * 200}
@@ -729,6 +773,26 @@ func (h *hist) step() {
 		if n == nil {
 			return
 		}
+		if nm, _ := h.meta["nodes"].(map[string]any); r.Intn(2) == 0 && nm[n.id] == nil {
+			// the UI has posted a position for the node; deleting the node leaves it behind
+			if nm == nil {
+				nm = map[string]any{}
+				h.meta["nodes"] = nm
+			}
+			value := map[string]any{"x": tameFloat(r) * 200, "y": tameFloat(r) * 200}
+			nm[n.id] = map[string]any{"position": deepCopy(value)}
+			key := "nodes." + n.id + ".position"
+			h.logf("setmetadata %s", key)
+			h.metaOps++
+			h.res.Count("op_set_metadata", 1)
+			if !h.try("graph.Instance.SetMetadata", func() { h.g.SetMetadata(key, value) }) {
+				return
+			}
+		}
+		if h.deleted == nil {
+			h.deleted = map[string]bool{}
+		}
+		h.deleted[n.id] = true
 		h.logf("delete %s", n.id)
 		h.res.Count("op_delete_node", 1)
 		h.deletions++
